@@ -93,10 +93,20 @@ def get_sim(kind, D, shape, real_t):
             _SIMS[key] = sps.PassiveTransportFlowSimulator(kinematic_viscosity=1.0, grid_dim=D, grid_size=shape, x_range=xr, real_t=real_t)
         elif D == 2:
             _SIMS[key] = sps.UnboundedNavierStokesFlowSimulator2D(grid_size=shape, x_range=xr, kinematic_viscosity=1.0, real_t=real_t,
-                                                                  flow_density=0.25, with_forcing=True)
+                                                                  flow_density=0.25, with_forcing=True, with_free_stream_flow=True)
         else:
             _SIMS[key] = sps.UnboundedNavierStokesFlowSimulator3D(grid_size=shape, x_range=xr, kinematic_viscosity=1.0, real_t=real_t,
-                                                                  flow_density=3.0, with_forcing=True, filter_vorticity=True)
+                                                                  flow_density=3.0, with_forcing=True, filter_vorticity=True,
+                                                                  with_free_stream_flow=True)
+        # the recommended step is a function of the CURRENT velocity only: the simulator has a history (a step with a free stream, a
+        # changed velocity) before the first query
+        sim = _SIMS[key]
+        sim.velocity_field[...] = 0
+        if kind == "passive":
+            sim.time_step(dt=real_t(0.01))
+        else:
+            sim.time_step(dt=real_t(0.01), free_stream_velocity=np.array([0.5, -1.0, 0.25][:D]))
+            sim.time_step(dt=real_t(0.01), free_stream_velocity=np.array([0.0, 2.0, -0.25][:D]))
     return _SIMS[key]
 
 
